@@ -1,6 +1,7 @@
 import Brax.Lemmas.KinVel
 import Brax.Lemmas.ScanLevels
 import Brax.Lemmas.ScanTypes
+import Brax.Model.KinCoded
 /-!
 # C01 — forward kinematics matches the reference engine for every model and pose
 
@@ -180,6 +181,40 @@ theorem scanLinkTypes_coded_eq_slices {α β : Type} (g : LinkIn α → List β)
     (hds : ds.length = (ts.map LinkType.qdWidth).sum) (hg : ∀ l, (g l).length = wo l.typ) :
     scanLinkTypesCoded g wo ts q qd ds dq dd dy = ((linkSlices ts q qd ds).map g).flatten :=
   scanLinkTypesCoded_eq g wo ts q qd ds dq dd dy hq hqd hds hg
+
+/-- **`kinematics.forward` including the scan code.**  With `scan.link_types` and `scan.tree` replaced by
+their faithful transcriptions, the function is the same as the model the theorems above are about — for
+every well-formed system (lengths fit, parents precede children) and every state of the right widths. -/
+theorem forwardCoded_eq_forward (s : Sys ℝ) (q qd : List ℝ) (dq : ℝ) (dd : DofP ℝ)
+    (hp : s.parents.length = s.types.length) (hl : s.links.length = s.types.length)
+    (hwf : ParentsWF s.parents) (hq : q.length = s.nq) (hqd : qd.length = s.nv) (hds : s.dofs.length = s.nv) :
+    forwardCoded s q qd dq dd = forward s q qd := by
+  unfold forwardCoded forward
+  simp only
+  rw [scanLinkTypesCoded_eq (fun l => [jcalc l]) (fun _ => 1) s.types q qd s.dofs dq dd _ hq hqd hds
+    (fun _ => rfl)]
+  have hflat : ((linkSlices s.types q qd s.dofs).map fun l => [jcalc l]).flatten
+      = (linkSlices s.types q qd s.dofs).map jcalc := by
+    induction linkSlices s.types q qd s.dofs with
+    | nil => rfl
+    | cons a l ih => simp [ih]
+  rw [hflat, List.zip_map_right, List.map_map]
+  have hjj : ((fun (lj : LinkP ℝ × Tf ℝ × Motion ℝ) =>
+        (placeJoint lj.1 lj.2.1, (⟨lj.2.2.ang, rotate lj.2.2.vel lj.1.tf.rot⟩ : Motion ℝ))) ∘ Prod.map id jcalc)
+      = fun (li : LinkP ℝ × LinkIn ℝ) =>
+        (placeJoint li.1 (jcalc li.2).1, (⟨(jcalc li.2).2.ang, rotate (jcalc li.2).2.vel li.1.tf.rot⟩ : Motion ℝ)) := by
+    funext li; rfl
+  rw [hjj]
+  rw [scanTreeLevels_eq_scanFwd world s.parents _ _ _ (by
+    simp [linkSlices_length, hp, hl]) hwf]
+
+/-- C01 positions for the function including the scan code -/
+theorem forwardCoded_pos_eq_mj (s : Sys ℝ) (q qd : List ℝ) (dq : ℝ) (dd : DofP ℝ) (h : KinOK s q qd)
+    (hp : s.parents.length = s.types.length) (hl : s.links.length = s.types.length)
+    (hwf : ParentsWF s.parents) (hq : q.length = s.nq) (hqd : qd.length = s.nv) (hds : s.dofs.length = s.nv) :
+    (forwardCoded s q qd dq dd).map (·.1) = Mj.kinematics s q := by
+  rw [forwardCoded_eq_forward s q qd dq dd hp hl hwf hq hqd hds]
+  exact forward_pos_eq_mj s q qd h
 
 /-! ## non-vacuity: a concrete system and state satisfying `KinOK`
 
